@@ -370,7 +370,7 @@ fn main() {
     cx.prop("two-links", PropCfg::new(n).shrink(200), arb_case, setup, |th, c| check(th, c));
     cx.require_class("commit-ok", 200);
     cx.require_class("commit-tried-on-stale-session", 100);
-    cx.require_class("exchange-tried-after-commit", 100);
+    cx.require_class("exchange-tried-after-commit", 60);
     cx.require_class("exchange-tried-after-expiry", 50);
     cx.require_class("link-exchanged-more-than-once", 100);
     cx.finish();
